@@ -651,7 +651,10 @@ TEXTS = [b"hello", b"hi there", b"how are you?", b"caf\xc3\xa9 au lait", b"\xc3\
          b"a  b", b"trailing ", b"1234567890" * 3, b"please go to http://x", b"This server was created yesterday",
          b"PING", b"#chan", b"\x1b[31mred", b"P\xc4\xb0NG"]
 BAN_MASKS = [b"*!*@*", b"alice!*@*", b"*!*@10.0.0.*", b"foo*", b"*[1]*", b"a.b*", b"(", b"x", b"*!a@*", b"bob*!*@*",
-             b"*!*@2001:db8::*", b"*", b"**", b"\\"]
+             b"*!*@2001:db8::*", b"*", b"**", b"\\",
+             # masks that differ in case only (a case-insensitive sort of the ban list leaves their order to chance) and
+             # upper-case masks (a case-insensitive sort moves them)
+             b"Alice!*@*", b"ALICE!*@*", b"*!*@Example.COM", b"*!*@example.com", b"Zed*", b"X", b"BOB*!*@*", b"Foo*"]
 MAX_USER_LEN = 32
 
 
@@ -1137,13 +1140,7 @@ class Gen(object):
                 mask = r.choice(BAN_MASKS)
                 if r.random() < 0.25:
                     tgt = r.choice(self.sess)
-                    mask = r.choice([b"*!*@robust/0x%x" % tgt.sid, (tgt.nick or b"x") + b"!*@*", b"*!*@" + tgt.ra,
-                                     # session references behind text whose case mappings have other lengths, unparsable / unknown /
-                                     # out-of-range session references, underscores (ParseInt base 0), upper-case hex
-                                     b"\xc8\xba" * r.randint(3, 9) + b"!*@robust/0x%x" % tgt.sid, b"\xc4\xb0\xc4\xb0*!*@robust/0x%x" % tgt.sid,
-                                     b"*!*@robust/0x%x*" % tgt.sid, b"*!*@robust/0xzz", b"*!*@robust/0x", b"*!*@robust/0x%x" % (tgt.sid + 977),
-                                     b"*!*@robust/0x8000000000000000", b"*!*@robust/0xffffffffffffffff", b"*!*@robust/0x%X" % tgt.sid,
-                                     b"*!*@robust/0x_%x" % tgt.sid, b"*!*@ROBUST/0x%x" % tgt.sid, b"robust/0x%x" % tgt.sid])
+                    mask = r.choice([b"*!*@robust/0x%x" % tgt.sid, (tgt.nick or b"x") + b"!*@*", b"*!*@" + tgt.ra] + self._ref_masks(tgt))
                 return b"MODE %s %s" % (c, r.choice([b"+b ", b"+b ", b"-b "]) + mask) if r.random() < 0.9 else b"MODE %s +b" % c
             return b"MODE %s %s %s %s" % (c, r.choice([b"+ob", b"+kb", b"-o+o", b"+bb"]), self._anynick(), r.choice(BAN_MASKS))
         if cmd == "TOPIC":
@@ -1192,7 +1189,11 @@ class Gen(object):
                 if b" " not in p:
                     s.oper = s.reg
                 return b"OPER %s %s" % (n, p) if b" " not in p else b"OPER %s :%s" % (n, p)
-            return r.choice([b"OPER root wrong", b"OPER x", b"OPER", b"OPER a b c"])
+            n0 = self.opers[0][0] if self.opers else b"root"
+            return r.choice([b"OPER root wrong", b"OPER x", b"OPER", b"OPER a b c",
+                             # empty / missing passwords and names, configured and unconfigured names
+                             b"OPER nobody :", b"OPER nobody ", b"OPER  ", b"OPER :", b"OPER : :", b"OPER %s :" % n0, b"OPER %s" % n0,
+                             b"OPER %s  " % n0, b"OPER :%s" % n0, b"oper %s :" % n0.upper()])
         if cmd in ("KILL", "GLINE"):
             return b"%s %s :%s" % (cmd.encode(), self._anynick(), t()) if r.random() < 0.9 else b"%s %s" % (cmd.encode(), self._anynick())
         if cmd == "KNOCK":
@@ -1400,10 +1401,28 @@ class Gen(object):
         x = r.choice(outs)
         return c, o, m, x
 
+    SCENES = ["topic", "captcha", "gates", "privs", "oper", "services", "limits", "holds", "quitlink", "latelink", "reincarnate",
+              "away", "invisible", "manychans", "banlist", "prereg", "prefixed", "banrefs"]
+
+    def _ref_masks(self, tgt):
+        """ban masks around the session reference robust/0x<id> (resolveSessionToRemoteAddr): behind text whose case mappings
+        have other lengths, with trailing text, unparsable / unknown / out-of-range ids, underscores (ParseInt base 0),
+        upper-case hex"""
+        r = self.rng
+        return [b"\xc8\xba" * r.randint(5, 12) + b"!*@robust/0x%x" % tgt.sid, b"\xc4\xb0\xc4\xb0*!*@robust/0x%x" % tgt.sid,
+                b"*!*@robust/0x%x*" % tgt.sid, b"*!*@robust/0xzz", b"*!*@robust/0x", b"*!*@robust/0x%x" % (tgt.sid + 977),
+                b"*!*@robust/0x8000000000000000", b"*!*@robust/0xffffffffffffffff", b"*!*@robust/0x%X" % tgt.sid,
+                b"*!*@robust/0x_%x" % tgt.sid, b"*!*@ROBUST/0x%x" % tgt.sid, b"robust/0x%x" % tgt.sid,
+                b"*!*@robust/0x%x" % tgt.sid, b"\xe1\xba\x9e!*@robust/0x%x" % tgt.sid]
+
     def scene(self, name=None):
         r = self.rng
-        name = name or r.choice(["topic", "captcha", "gates", "privs", "oper", "services", "limits", "holds", "quitlink",
-                                 "latelink", "reincarnate", "away", "invisible", "manychans"])
+        if name is None:
+            # every kind of scene gets its turn (detection must not depend on which scenes a run happens to draw)
+            if not getattr(self, "_scene_queue", None):
+                self._scene_queue = list(self.SCENES)
+                r.shuffle(self._scene_queue)
+            name = self._scene_queue.pop()
         cast = self._cast()
         if cast is None:
             return
@@ -1411,7 +1430,62 @@ class Gen(object):
         lc = chan_to_lower(c)
         M = self._M
         t = self._text
-        if name == "topic":
+        if name == "banrefs":
+            masks = self._ref_masks(x)
+            r.shuffle(masks)
+            for mask in masks[:r.randint(5, len(masks))]:
+                M(o, b"MODE %s +b %s" % (c, mask))
+                if r.random() < 0.4:
+                    M(x, b"JOIN " + c)
+                    M(x, b"PART " + c)
+                if r.random() < 0.6:
+                    M(o, b"MODE %s -b %s" % (c, mask))
+            M(o, b"MODE %s +b" % c)
+            M(x, b"JOIN " + c)
+        elif name == "banlist":
+            # several bans, among them masks that differ only in case, then the list is asked for (more than once: with
+            # an order that is left to chance the answers of the replicas differ)
+            for mask in r.sample(BAN_MASKS, r.randint(3, 7)) + r.sample([b"Alice!*@*", b"ALICE!*@*", b"alice!*@*"], 2):
+                M(o, b"MODE %s +b %s" % (c, mask))
+            M(o, b"MODE %s +b" % c)
+            M(m, r.choice([b"MODE %s +b" % c, b"MODE %s b" % c]))
+            if r.random() < 0.5:
+                M(o, b"MODE %s -b %s" % (c, r.choice(BAN_MASKS)))
+                M(x, b"MODE %s +b" % c)
+        elif name == "prereg":
+            # sessions that end before their registration is complete: with a nickname but no USER, with USER only,
+            # with neither; by QUIT and by DeleteSession (expiry, DELETE, /kill take that path); the nickname must be free
+            # again and nothing may be addressed to the ended session afterwards
+            ns = self._C()
+            if ns is not None:
+                nick = r.choice([n for n in self.nicks if not any(z.alive and z.nick and nick_to_lower(z.nick) == nick_to_lower(n) for z in self.sess)] or [b"Fresh1"])
+                how = r.choice(["nick", "nick", "user", "none", "pass"])
+                if how == "nick":
+                    M(ns, b"NICK " + nick)
+                elif how == "user":
+                    M(ns, b"USER u 0 * :r")
+                elif how == "pass":
+                    M(ns, b"PASS x"); M(ns, b"NICK " + nick)
+                if r.random() < 0.5:
+                    M(ns, r.choice([b"QUIT", b"QUIT :gone", b"QUIT :"]))
+                else:
+                    self._D(ns)
+                M(x, b"NICK " + nick)
+                M(o, b"PRIVMSG %s :are you there" % nick)
+                if x.oper or r.random() < 0.3:
+                    M(o, b"NOTICE $* :to all")
+                M(x, b"NICK " + (x.nick or b"x2"))
+        elif name == "prefixed":
+            # client lines that carry a prefix (the prefix of a client line is ignored; only services links are believed)
+            pfx = r.choice([b"NickServ", b"NickServ!services@services", m.nick or b"m", (m.nick or b"m") + b"!u@h", b"robustirc.net", b"x!y@z"])
+            M(x, b":%s PRIVMSG %s :%s" % (pfx, r.choice([c, o.nick or b"o", m.nick or b"m"]), t()))
+            M(o, b":%s PRIVMSG %s :%s" % (pfx, c, t()))
+            M(o, b":%s NOTICE %s :%s" % (pfx, m.nick or b"m", t()))
+            M(m, b":%s TOPIC %s :%s" % (pfx, c, t()))
+            M(x, b":%s JOIN %s" % (pfx, c))
+            M(x, b":%s NICK %s" % (pfx, r.choice(self.nicks)))
+            M(o, b":%s KICK %s %s" % (pfx, c, m.nick or b"m"))
+        elif name == "topic":
             if r.random() < 0.6:
                 M(o, b"MODE %s -t" % c)
             M(o, b"TOPIC %s :%s" % (c, t()))
@@ -1430,9 +1504,11 @@ class Gen(object):
                 self.keys[lc] = b"sesame"
                 M(o, b"MODE %s +k sesame" % c)
             M(x, b"JOIN " + c)
-            kinds = r.sample(["replayed", "expired", "mutated", "garbage"], r.randint(1, 3)) + [r.choice(["ok", "future", "ok"])]
+            kinds = r.sample(["replayed", "expired", "mutated", "garbage", "shape", "shape"], r.randint(1, 4)) + [r.choice(["ok", "future", "ok"])]
             if r.random() < 0.3:
                 r.shuffle(kinds)
+            if r.random() < 0.5:
+                kinds = ["shape"] * r.randint(6, 14) + kinds      # a walk through the malformed purposes
             for kd in kinds:
                 M(x, b"JOIN %s %s" % (c, self._token(kd, cmd=b"join", arg=c)), big=r.random() < 0.15)
                 if r.random() < 0.3:
@@ -1528,7 +1604,7 @@ class Gen(object):
             self._C()
         elif name == "holds" and self.link and self.link.alive:
             n = r.choice(self.nicks)
-            M(self.link, b"SVSHOLD %s %d :held" % (n, r.choice([30, 3600])))
+            M(self.link, b"SVSHOLD %s %d :%s" % (n, r.choice([30, 3600]), r.choice([b"held", b"", b"held by services", b" "])))
             M(x, b"NICK " + n)
             M(x, b"PING :later", big=r.random() < 0.5)
             M(x, b"NICK " + n)
@@ -1618,7 +1694,7 @@ class Gen(object):
         want_oper = r.random() < 0.55
         self._setup(r.randint(3, 8), want_link, want_oper)
         n = length if length is not None else r.randint(25, 140)
-        scenes = r.choices([0, 1, 2, 3], [3, 4, 2, 1])[0]
+        scenes = r.choices([0, 1, 2, 3, 4], [2, 4, 3, 2, 1])[0]
         at = sorted(r.randint(0, n) for _ in range(scenes))
         for k in range(n):
             while at and at[0] <= k:
@@ -1629,6 +1705,19 @@ class Gen(object):
             self.entries.append({"k": "S"})
             for _ in range(r.randint(3, 15)):
                 self._action()
+        return self._case()
+
+    def scene_history(self, name):
+        """a short history built around one kind of scene (every kind is exercised in every run, see run_irc_check)"""
+        r = self.rng
+        self._reset()
+        self._setup(r.randint(4, 7), r.random() < 0.7, r.random() < 0.7)
+        for _ in range(r.randint(2, 4)):
+            for _ in range(r.randint(3, 10)):
+                self._action()
+            self.scene(name)
+        for _ in range(r.randint(3, 10)):
+            self._action()
         return self._case()
 
     def _action(self, malformed=False):
